@@ -5,7 +5,7 @@ cd /repo || exit 2
 test -z "$(git status --porcelain --untracked-files=no)" || { echo "/repo is dirty"; exit 2; }
 git apply /verif/seeded/$NAME/patch.diff || { echo "patch does not apply"; exit 2; }
 for c in "$@"; do
-  timeout 3000 /verif/bin/check $c --tier ${SEED_TIER:-quick} > /tmp/seedcheck_$c.log 2>&1; rc=$?
+  timeout ${SEED_TIMEOUT:-600} /verif/bin/check $c --tier ${SEED_TIER:-quick} > /tmp/seedcheck_$c.log 2>&1; rc=$?
   cl=$(grep -a "clause=" /tmp/seedcheck_$c.log | sed 's/.*clause=\([^ ]*\).*/\1/' | sort -u | tr '\n' ' ')
   if [ $rc = 1 ]; then echo "$NAME $c: CAUGHT [$cl]"; elif [ $rc = 0 ]; then echo "$NAME $c: missed"; else echo "$NAME $c: MACHINERY rc=$rc"; tail -5 /tmp/seedcheck_$c.log; fi
 done
